@@ -308,9 +308,17 @@ func c18R1(r *Report) {
 			}
 			if r.Anchor("R1", "tor.trackerAnnounce", ta != nil) {
 				c2, _ := p.callSitesOf(ta)
+				// the gate may also sit inside trackerAnnounce itself, before every start of an announce
+				isSet := func(op token.Token, k int64, pol bool) bool { return op == token.NEQ && pol }
+				innerGated := len(calls) > 0
+				for _, cs := range calls {
+					if cs.Parent() != ta || !fieldGuard(cs.(ssa.Instruction).Block(), useTrackers, isSet) {
+						innerGated = false
+					}
+				}
 				for _, cs := range c2 {
 					in := cs.(ssa.Instruction)
-					ok := fieldGuard(in.Block(), useTrackers, func(op token.Token, k int64, pol bool) bool { return op == token.NEQ && pol })
+					ok := innerGated || fieldGuard(in.Block(), useTrackers, isSet)
 					r.Check(ok, "R1", "trackerAnnounce/under-useTrackers/"+fname(cs.Parent()), cs.Pos(), "tracker rounds run only while useTrackers is set", "trackerAnnounce is called on a path not dominated by t.useTrackers: trackers are contacted although tracker use is disabled")
 				}
 				r.Sentinel("R1.trackerAnnounce", len(c2), 1)
@@ -412,7 +420,7 @@ func c18R1(r *Report) {
 				}
 				n++
 				r.Fn(f)
-				ok2 := hasCallGuard(c.Block(), isPeerHasProxy, false)
+				ok2 := hasCallGuardAt(p, c, isPeerHasProxy, false)
 				r.Check(ok2, "R1", fmt.Sprintf("%s/%s-only-unproxied", fname(f), strings.Fields(what)[0]), c.Pos(), what+" is used only under !hasProxy(peer)",
 					what+" is reached on a path not dominated by !hasProxy(peer): a proxied torrent reveals it to the peer")
 			})
@@ -432,7 +440,7 @@ func c18R1(r *Report) {
 				}
 				switch sl.Type {
 				case "protocol.Port":
-					r.Check(hasCallGuard(mi.Block(), isPeerHasProxy, false), "R1", "peer.Run/Port-message-only-unproxied", mi.Pos(), "the DHT Port message is sent only without a proxy", "protocol.Port is sent to a peer of a proxied torrent")
+					r.Check(hasCallGuardAt(p, mi, isPeerHasProxy, false), "R1", "peer.Run/Port-message-only-unproxied", mi.Pos(), "the DHT Port message is sent only without a proxy", "protocol.Port is sent to a peer of a proxied torrent")
 				case "protocol.Extended0":
 					for _, fld := range []string{"Version", "Port", "IPv6"} {
 						v := sl.Fields[fld]
